@@ -735,8 +735,10 @@ package iscp
 //@   after call connectWire: okDial = (res1 == nil)
 //@   ghostvar got *wire.ClientConn = nil
 //@   after call connectWire: got = res0
-//@   ensures[C05] imp(okDial, result && resErr == nil && res == got)
-//@   ensures[C05] imp(!okDial, resErr != nil)
+// (the two variables the closure shares with reconnect are named by their types, so that renaming
+//  reconnect's locals does not touch this contract)
+//@   ensures[C05] imp(okDial, result && captured(error) == nil && captured(*wire.ClientConn) == got)
+//@   ensures[C05] imp(!okDial, captured(error) != nil)
 
 // Per-stream watchers: when a stream's run loop ends with an error on a connection that is not
 // closed, the watcher waits for Connected and resumes THIS stream on the connection's current
